@@ -126,13 +126,6 @@ Definition win_same_form (sw ow : window_size) : Prop :=
 (* the window does not refer to the observed MSS: literally the signature's form, or the signature says `*` *)
 Definition win_literal (s o : tcp_sig) : Prop := t_wsize o = t_wsize s \/ t_wsize s = WAny.
 
-(* ---- known class (TCP): instances the unchanged matcher does not accept with distance 0 ---- *)
-(* K1 TtlFormGap: the signature's ittl is not a plain value (`64-`, `64+?`, `54+10`) and the observation
-   carries a hop-count TTL that is not literally the signature's: the matcher has no (Distance, Bad) /
-   (Distance, Guess) arm (-> rejected) and compares (Distance, Distance) component-wise (-> 2). *)
-Definition ttl_form_gap (s o : tcp_sig) : bool :=
-  negb (ttl_eqb (t_ittl o) (t_ittl s)) && match t_ittl s with TtlValue _ => false | _ => true end.
-Definition known_tcp (s o : tcp_sig) : bool := ttl_form_gap s o.
 
 (* ---- "differs from an instance in a single non-decisive field", stated on the observation itself ---- *)
 Inductive tcp_field := FTtl | FOlen | FMss | FWsize | FWscale.
